@@ -273,6 +273,13 @@ class Shape:
     # ------------------------------------------------------------------ expressions
     def ev(self, e, env):
         m = getattr(self, 'ev_' + type(e).__name__, None)
+        if isinstance(e, ast.BinOp):
+            self._stored_result = False
+            v = m(e, env)
+            if self._stored_result and isinstance(v, Arr):
+                v.stored = True
+            self._stored_result = False
+            return v
         return m(e, env) if m else UNK
 
     def ev_Constant(self, e, env):
@@ -412,6 +419,15 @@ class Shape:
         op = e.op
         el = UNK
         lit = isinstance(e.left, ast.Constant) or isinstance(e.right, ast.Constant)
+        # id arrays kept in their on-disk dtype (the loader accepts uint16 / int32 ...): a product with a Python / NumPy scalar is formed in THAT dtype
+        # and wraps silently once it exceeds the range; sums with a scalar keep the dtype (and the flag)
+        for side, other, other_node in ((l, r, e.right), (r, l, e.left)):
+            if isinstance(side, Arr) and getattr(side, 'stored', False) and isinstance(side.elem, Ix) and not isinstance(other, Arr):
+                if isinstance(op, (ast.Mult, ast.LShift, ast.Pow)) and not isinstance(other_node, ast.Constant):
+                    self.report('dtype', e, 'the id array `%s` is multiplied by `%s` in its on-disk dtype (uint16 / int32 are accepted by the loader): the combined key wraps around '
+                                'silently once it exceeds that dtype; widen first (astype(np.int64)) or use np.ravel_multi_index' % (unparse(e.left if side is l else e.right), unparse(other_node)))
+                elif isinstance(op, (ast.Add, ast.Sub)):
+                    self._stored_result = True
         # np.max(ids) + 1 / ids.max() + 1  -> size of the id space
         if isinstance(le, Ix) and isinstance(op, ast.Add) and const_value(e.right) == 1 and isinstance(e.left, ast.Call) and \
                 ((dotted(e.left.func) in ('np.max', 'np.amax')) or (isinstance(e.left.func, ast.Attribute) and e.left.func.attr == 'max')) and not isinstance(l, Arr):
@@ -571,7 +587,10 @@ class Shape:
             if isinstance(v, Arr) and isinstance(v.elem, BoolT):
                 if v.axes and not is_unk(v.axes[0]) and not is_unk(ax) and v.axes[0] is not ax:
                     self.report('space', node, 'boolean mask over %s applied to an axis of space %s' % (v.axes[0], ax))
-                slots.append(('adv', [Space('Sub', v.vid, ax, mask=getattr(v, 'mask', None))]))
+                sub_ = Space('Sub', v.vid, ax, mask=getattr(v, 'mask', None))
+                if getattr(v, 'member_of', None) is not None:
+                    sub_.info['of'] = v.member_of          # x[np.isin(x, y)]: the restriction is by membership in y (same provenance as intersect1d(x, y))
+                slots.append(('adv', [sub_]))
                 continue
             if isinstance(v, Arr) and isinstance(v.elem, Ix):
                 self.check_ix(node, ax, v.elem, i)
@@ -667,7 +686,10 @@ class Shape:
         if not isinstance(base, Arr):
             return UNK
         idx = e.slice.elts if isinstance(e.slice, ast.Tuple) else [e.slice]
-        return self.index(e, base, idx, env)
+        out = self.index(e, base, idx, env)
+        if isinstance(out, Arr) and getattr(base, 'stored', False):
+            out.stored = True           # a selection of an array kept in its on-disk dtype has that dtype
+        return out
 
     # ---- calls
     def axis_of(self, e, kw, pos=None):
@@ -835,7 +857,13 @@ class Shape:
             eb = b.elem if isinstance(b, (Arr, ListT)) else b
             if isinstance(ea, Ix) and isinstance(eb, Ix) and ea.space is not eb.space:
                 self.report('space', e, 'membership test of %s in a set of %s' % (ea, eb))
-            return Arr(a0.axes, BoolT()) if isinstance(a0, Arr) else BoolT()
+            if isinstance(a0, Arr):
+                out_ = Arr(a0.axes, BoolT())
+                out_.mask = ('isin', ea, eb, e)
+                if isinstance(b, Arr):
+                    out_.member_of = b
+                return out_
+            return BoolT()
         if np_ == 'where' and len(args) == 3:
             cands = [x for x in args[1:] if isinstance(x, Arr)] or [x for x in args[1:] if isinstance(x, Ix)]
             pick = None
@@ -1171,7 +1199,9 @@ class Shape:
         if isinstance(a, Arr):
             if len(a.axes) == 1:
                 return a.elem
-            return Arr(a.axes[1:], a.elem)
+            row = Arr(a.axes[1:], a.elem)
+            row.view_of = a                 # iterating an ndarray yields VIEWS of its rows: a store through the row is a store into the array
+            return row
         if isinstance(a, DictT):
             return a.key
         if isinstance(a, Tup):
@@ -1425,6 +1455,10 @@ class Shape:
             while isinstance(root, ast.Subscript):
                 root = root.value
             rootv = self.ev(root, env)
+            views = []
+            while isinstance(rootv, Arr) and getattr(rootv, 'view_of', None) is not None:
+                views.append(rootv)
+                rootv = rootv.view_of
             if isinstance(rootv, Arr) and isinstance(rootv.elem, Q) and rootv.elem.poly:
                 tgt = rootv
             ve = elem_of(v)
@@ -1432,6 +1466,8 @@ class Shape:
                 literal = isinstance(s, ast.Assign) and (isinstance(s.value, ast.Constant) or const_value(s.value) is not None)
                 if not literal and not (isinstance(ve, Q) and not ve.dim and not ve.tags and isinstance(getattr(s, 'value', None), ast.Attribute)):
                     tgt.elem = ve
+                    for w_ in views:
+                        w_.elem = ve
             elif tgt is not None and isinstance(tgt.elem, Ix) and isinstance(ve, Ix) and tgt.elem.space is not ve.space and not is_unk(tgt.elem.space) and not is_unk(ve.space):
                 self.report('space', s, 'values of kind %s are stored into an array of %s' % (ve, tgt.elem))
             elif tgt is not None and isinstance(tgt.elem, Q) and isinstance(ve, Q) and tgt.elem.dim and ve.dim and tgt.elem.dim != ve.dim and not tgt.elem.poly:
